@@ -217,8 +217,148 @@ def is_junk(t):
     return False
 
 
+def linear(t):
+    """canonical form of an integer sum: addends flattened, equal terms cancelled, constants folded"""
+    coef = {}
+    const = [0]
+
+    def go(x, sgn):
+        if x[0] == "op" and x[1] == "Add":
+            go(x[2], sgn)
+            go(x[3], sgn)
+        elif x[0] == "op" and x[1] == "Sub":
+            go(x[2], sgn)
+            go(x[3], -sgn)
+        elif x[0] == "const" and isinstance(x[1], int):
+            const[0] += sgn * x[1]
+        else:
+            coef[x] = coef.get(x, 0) + sgn
+    go(t, 1)
+    pos = sorted((k for k, v in coef.items() for _ in range(v) if v > 0), key=repr)
+    neg = sorted((k for k, v in coef.items() for _ in range(-v) if v < 0), key=repr)
+    out = None
+    for k in pos:
+        out = k if out is None else ("op", "Add", out, k)
+    if const[0] > 0 or out is None:
+        c = ("const", max(const[0], 0) if out is None and const[0] < 0 else const[0])
+        if out is None:
+            out = ("const", const[0])
+        else:
+            out = ("op", "Add", out, ("const", const[0]))
+    elif const[0] < 0:
+        out = ("op", "Sub", out, ("const", -const[0]))
+    for k in neg:
+        out = ("op", "Sub", out, k)
+    return T.normalise(out)
+
+
+class _View:
+    """a LoopSummary-shaped value (loops, events) after a rewriting pass"""
+    def __init__(self, loops, events):
+        self.loops = loops
+        self.events = events
+
+
+def unrolled(ls, max_count=8):
+    """loops with a small constant trip count and no inner loop are replaced by their iterations: the emitted operations are
+    replicated, the loop-carried values substituted (v0 = init, v(k+1) = update[v(k)]), later uses get the final value.
+    `for _ in 0..2 { b = (b + a) % S; set(b, i) }` and the same two steps written out are then the same summary."""
+    loops = [dict(l) for l in ls.loops]
+    events = [dict(e) for e in ls.events]
+    RANGE = ("agg", "adt:std::ops::Range", (("const", T.V("a")), ("const", T.V("b"))))
+    alive = [True] * len(loops)
+    changed = True
+    while changed:
+        changed = False
+        for j, l in enumerate(loops):
+            if not alive[j] or l["kind"] != "for" or l["source"] is None or l["conds"]:
+                continue
+            m = T.match(RANGE, T.normalise(T.strip_casts(l["source"])))
+            if m is None or not isinstance(m["a"], int) or not isinstance(m["b"], int):
+                continue
+            cnt = m["b"] - m["a"]
+            if not (0 < cnt <= max_count):
+                continue
+            if any(alive[i] and k["parent"] == l["id"] for i, k in enumerate(loops)):
+                continue
+            carried = [c for c in l["carried"] if not any(is_junk(x) for x in c["init"] + c["update"])]
+            if any(len(c["init"]) != 1 or len(c["update"]) != 1 for c in carried):
+                continue
+            lid = l["id"]
+
+            def subst(t, env, itemval):
+                def f(x):
+                    if x[0] == "cur" and len(x) > 1 and x[1] in env:
+                        return env[x[1]]
+                    if x[0] == "item" and len(x) > 1 and x[1] == lid and itemval is not None:
+                        return itemval
+                    return x
+                return T.map_term(t, f)
+            vals = {c["var"]: c["init"][0] for c in carried}
+            seq = [e for e in events if e["loop"] == lid]
+            pos = min([i for i, e in enumerate(events) if e["loop"] == lid] or [len(events)])
+            new = []
+            for k in range(cnt):
+                iv = ("const", m["a"] + k)
+                for e in seq:
+                    ne = dict(e)
+                    ne["loop"] = l["parent"]
+                    ne["args"] = tuple(subst(a, vals, iv) for a in e["args"])
+                    new.append(ne)
+                vals = {c["var"]: subst(c["update"][0], vals, iv) for c in carried}
+            rest = [e for e in events if e["loop"] != lid]
+            npos = sum(1 for e in events[:pos] if e["loop"] != lid)
+            events = rest[:npos] + new + rest[npos:]
+            # final values for everything after / around the loop
+            for e in events:
+                if e not in new:
+                    e["args"] = tuple(subst(a, vals, None) for a in e["args"])
+            for i, k in enumerate(loops):
+                if not alive[i] or i == j:
+                    continue
+                k["source"] = subst(k["source"], vals, None) if k["source"] is not None else None
+                k["conds"] = [(subst(c, vals, None), v) for c, v in k["conds"]]
+                k["carried"] = [dict(c, init=[subst(x, vals, None) for x in c["init"]], update=[subst(x, vals, None) for x in c["update"]])
+                                for c in k["carried"]]
+            alive[j] = False
+            changed = True
+            break
+    if all(alive):
+        return ls
+    remap = {}
+    for i, l in enumerate(loops):
+        if alive[i]:
+            remap[l["id"]] = len(remap)
+
+    def ren(t):
+        def f(x):
+            if x[0] == "item" and len(x) > 1 and x[1] in remap:
+                return ("item", remap[x[1]])
+            return x
+        return T.map_term(t, f) if t is not None else None
+    out_loops = []
+    for i, l in enumerate(loops):
+        if not alive[i]:
+            continue
+        nl = dict(l)
+        nl["id"] = remap[l["id"]]
+        nl["parent"] = remap.get(l["parent"]) if l["parent"] is not None else None
+        nl["source"] = ren(l["source"])
+        nl["conds"] = [(ren(c), v) for c, v in l["conds"]]
+        nl["carried"] = [dict(c, init=[ren(x) for x in c["init"]], update=[ren(x) for x in c["update"]]) for c in l["carried"]]
+        out_loops.append(nl)
+    out_events = []
+    for e in events:
+        ne = dict(e)
+        ne["loop"] = remap.get(e["loop"]) if e["loop"] is not None else None
+        ne["args"] = tuple(ren(a) for a in e["args"])
+        out_events.append(ne)
+    return _View(out_loops, out_events)
+
+
 def signature(ls, roles, event_norm=None):
-    """canonical, comparable form of a LoopSummary"""
+    """canonical, comparable form of a LoopSummary (small constant loops unrolled, counting loops by their count)"""
+    ls = unrolled(ls)
     cur_map = {}
 
     def recur(t):
@@ -248,6 +388,20 @@ def signature(ls, roles, event_norm=None):
             if ev is None:
                 continue
         events.append((e["loop"], ev[0], ev[1]))
+    # a loop whose item is never used only counts: Range(lo, hi) becomes ("count", hi - lo)
+    for i, L in enumerate(loops_out):
+        src = L[2]
+        if src is None:
+            continue
+        it = ("item", i)
+        used = any(T.find(it, a) is not None for _, _, args in events for a in args)
+        for L2 in loops_out:
+            for x in [L2[2]] + [c for c, _ in L2[3]] + [y for _, ini, upd in L2[4] for y in ini + upd]:
+                if x is not None and T.find(it, x) is not None:
+                    used = True
+        m = T.match(("agg", "adt:std::ops::Range", (T.V("lo"), T.V("hi"))), src)
+        if not used and m is not None:
+            L[2] = ("count", linear(("op", "Sub", m["hi"], m["lo"])))
     # renumber cur ids in order of appearance: loops first (carried order), then events
     sig_loops = []
     for parent, kind, src, conds, carried in loops_out:
